@@ -19,7 +19,8 @@ DRIVER_MODULE = "Driver.Lambda"
 PROPS = "RlibModel.Props.C20"
 PROFILES = []
 SHRINK_SEP = None
-RULE = ("cases = every invocation shape (captures 0..4 in every &/&mut pattern and order [quick: 0..2], 1..4 arguments, with/without "
+RULE = ("cases = every invocation shape (captures 0..4 in every &/&mut pattern and order [quick: full cross product for 0..2 captures, plus "
+        "every pattern of 3 and 4 captures with one argument count, both call syntaxes, ret/none alternating, one body], 1..4 arguments, with/without "
         "return type, recursive calls with/without trailing comma) x 3 body templates (arith-i64, vec-memo, mixed-types; each reads "
         "the shared captures, updates the mutable ones before and after the recursive calls, branches on argument 0 and calls itself "
         "0, 1 or 2 times), each called 3 times with seed-dependent literal arguments; one evaluation = one (shape, body) instance "
@@ -126,7 +127,8 @@ def extra(ctx):
     t0 = time.time()
     shapes = G.shapes_for_tier(tier)
     instances = [(s, t) for s in shapes for t in range(G.TEMPLATES)]
-    beyond = G.beyond_shapes(len(shapes)) if tier == "thorough" else []      # 5 and 6 captures, up to 6 arguments
+    # quick: + every pattern of 3 and 4 captures with a reduced cross product; thorough: + 5 and 6 captures, up to 6 arguments
+    beyond = G.beyond_shapes(len(shapes)) if tier == "thorough" else G.quick_wide_shapes(len(shapes))
     instances += [(s, s.sid % G.TEMPLATES) for s in beyond]
     by_sid = {s.sid: s for s in shapes + beyond}
     nparts = 4 if tier == "thorough" else 2
@@ -342,7 +344,7 @@ def extra(ctx):
     cov["extra_nontrivial"] = nontrivial
     cov["extra_samples"] = samples
     cov["shapes"] = len(shapes)
-    cov["beyond_bound_shapes"] = len(beyond)
+    cov["beyond_bound_shapes" if tier == "thorough" else "quick_wide_shapes_3_4_captures"] = len(beyond)
     cov["instances"] = len(instances)
     cov["generator_histogram_extra"] = hist
     cov["extra_s"] = round(time.time() - t0, 2)
